@@ -425,10 +425,19 @@ def op_add_movie(run):
         kw["poster_frame_image"] = f[run.rnd.choice(["img0", "img1"])]
     if run.rnd.random() < 0.5:
         kw["mime_type"] = run.rnd.choice(["video/mp4", "video/quicktime"])
-    mv = s.shapes.add_movie(f[run.rnd.choice(["movie", "movie", "movie_upper"])], *geom(run), **kw)
+    src = f[run.rnd.choice(["movie", "movie", "movie_upper"])]
+    how = "path"
+    if run.rnd.random() < 0.3:
+        # a file-like object, the same one for every movie of this history and never rewound (from its second use on it reads
+        # as empty: a media part without payload, which must still be written, related and typed like any other)
+        if getattr(run, "movie_stream", None) is None:
+            run.movie_stream = io.BytesIO(open(f["movie"], "rb").read())
+        src, how = run.movie_stream, "shared stream"
+        kw.setdefault("mime_type", "video/mp4")
+    mv = s.shapes.add_movie(src, *geom(run), **kw)
     remember_shape(run, s, mv)
     run.acc.hit("add_movie")
-    return str(sorted(kw))
+    return "%s %s" % (how, sorted(kw))
 
 
 def op_add_ole(run):
@@ -631,6 +640,36 @@ def op_run_hyperlink(run):
         r.hyperlink.address = r.hyperlink.address
     run.acc.hit("run.hyperlink.address")
     return ("set" if url else "clear") + (" twice" if again else "")
+
+
+def op_hyperlink_cycle(run):
+    """A link set, dropped, something else related in between (it may take the freed rId), and the same URL linked again on the
+    same slide: whatever the relationship bookkeeping remembers of the first link must not come back."""
+    r = run.rnd
+    s = a_slide(run)
+    url = "http://cycle.example/%d?q=1" % r.randrange(3)
+    tb = s.shapes.add_textbox(0, 0, 914400, 914400)
+    p = tb.text_frame.paragraphs[0]
+    r1 = p.add_run()
+    r1.text = "first"
+    r1.hyperlink.address = url
+    r1.hyperlink.address = None if r.random() < 0.6 else "http://other.example/%d" % r.randrange(3)
+    between = r.choice(["picture", "link", "jump"])
+    if between == "picture":
+        s.shapes.add_picture(run.ensure_files()["img%d" % r.randrange(3)], 0, 0)
+    elif between == "link":
+        r2 = p.add_run()
+        r2.text = "between"
+        r2.hyperlink.address = "http://between.example/%d" % r.randrange(5)
+    else:
+        sh = s.shapes.add_shape(1, 0, 0, 914400, 914400)
+        sh.click_action.target_slide = a_slide(run)
+    r3 = p.add_run()
+    r3.text = "again"
+    r3.hyperlink.address = url
+    remember_shape(run, s, tb)
+    run.acc.hit("hyperlink:set-drop-other-set-again")
+    return between
 
 
 def op_hyperlink_share(run):
@@ -1081,6 +1120,7 @@ ALL_OPS = {
     "slides_get": (op_slides_get, NONE),
     "read_slides": (op_read_slides, NONE),
     "remove_layout": (op_remove_layout, (VE,)),
+    "hyperlink_cycle": (op_hyperlink_cycle, NONE),
     "drop_layout_readd": (op_drop_layout_readd, NONE),
     "slide_name": (op_slide_name, NONE),
     "add_shape": (op_add_shape, NONE),
@@ -1123,7 +1163,7 @@ PROFILES = {
         "save_stream": 10, "save_path": 2, "save_same_stream": 4, "save_same_path": 2, "reopen": 4, "core_prop": 2, "add_slide": 8, "slide_index_bad": 1, "slides_get": 2, "read_slides": 4,
         "remove_layout": 3, "drop_layout_readd": 4, "add_shape": 3, "add_textbox": 3, "add_picture": 8, "add_picture_notimage": 1, "add_connector": 1, "add_group": 2,
         "add_chart": 6, "add_table": 2, "add_movie": 4, "add_ole": 4, "ph_insert": 4, "run_hyperlink": 8, "click_action": 8, "chart_replace": 5,
-        "notes": 5, "text_assign": 2, "traverse": 2, "add_freeform": 1, "table": 1, "hyperlink_share": 6,
+        "notes": 5, "text_assign": 2, "traverse": 2, "add_freeform": 1, "table": 1, "hyperlink_share": 6, "hyperlink_cycle": 5,
     },
     # C03: XML mutators
     "xml": {
@@ -1136,7 +1176,7 @@ PROFILES = {
     "ids": {
         "add_slide": 10, "add_shape": 8, "add_textbox": 5, "add_picture": 6, "add_connector": 4, "add_group": 8, "add_freeform": 6, "add_chart": 4,
         "add_table": 3, "add_movie": 3, "add_ole": 2, "turbo": 4, "notes": 3, "run_hyperlink": 3, "click_action": 3, "slides_get": 3,
-        "read_slides": 2, "save_stream": 4, "ph_insert": 2, "hyperlink_share": 4, "connect": 3,
+        "read_slides": 2, "save_stream": 4, "ph_insert": 2, "hyperlink_share": 4, "hyperlink_cycle": 5, "connect": 3,
     },
 }
 PROFILES["mixed"] = {k: 3 for k in ALL_OPS if k != "saturate"}
@@ -1321,7 +1361,8 @@ def inject_id_state(run):
         s = r.choice(slides)
         t = etree.SubElement(s._element, "{%s}timing" % P)
         tn = etree.SubElement(etree.SubElement(etree.SubElement(t, "{%s}tnLst" % P), "{%s}par" % P), "{%s}cTn" % P)
-        tn.set("id", str(r.choice([1, 2, 3, 50])))
+        top = max([int(i) for i in xp(s._element, "//p:cNvPr/@id") if i.isdigit()] or [1])
+        tn.set("id", str(r.choice([1, 2, 3, 50, top + 1, top + 1, top + 2])))  # just above the highest shape id: the next id by count of shapes
         tn.set("dur", "indefinite")
         tn.set("nodeType", "tmRoot")
     if kind == "nonnumeric":
